@@ -55,7 +55,7 @@ var properties = []Property{
 		NotDecided:  "observational equivalence of optimized and unoptimized programs in general.",
 		Assumptions: commonAssumptions},
 	{ID: "C13", Title: "invalid scripts are rejected", Level: "other",
-		Rules:       []string{"R-NILERR", "R-ERRPROP", "R-BLOCKOPEN", "R-TOPSTOP", "R-TERNGUARD", "R-LOCALGUARD"},
+		Rules:       []string{"R-NILERR", "R-ERRPROP", "R-BLOCKOPEN", "R-TOPSTOP", "R-TERNGUARD", "R-LOCALGUARD", "R-EOFSENTINEL"},
 		Explanation: "SSA dataflow over the parser and compiler: a parse function returns nil only after an error was recorded (must-dataflow with callee summaries, through the registered parselet tables), Parse turns a non-empty error list into an error, every error-valued call has its error looked at and never replaced by nil, blocks are parsed only after '{' was demanded, the top-level loop stops only at end of input, nested ternaries and `local` outside functions are rejected.",
 		NotDecided:  "that each individual syntax check is the right check (needs a grammar as oracle).",
 		Assumptions: commonAssumptions},
@@ -114,6 +114,11 @@ var properties = []Property{
 		Rules:       []string{"R-PRECTABLE", "R-PRATT", "R-INFIXSET", "R-TERNGUARD"},
 		Explanation: "The four facts that are the grouping semantics of a Pratt parser are read from the code: the order of the binding powers against the documented chain, strictness of the loop comparison, capture of the operator's binding power before the parser advances, agreement between the infix table and the precedence table; plus the nested-ternary guard.",
 		NotDecided:  "the '.' rewrite of field access, postfix ++/-- being separate statements, what the compiler does with the tree.",
+		Assumptions: commonAssumptions},
+	{ID: "C14", Title: "literals and layout", Level: "other",
+		Rules:       []string{"R-LEXPROGRESS", "R-EOFSENTINEL", "R-ESCAPES"},
+		Explanation: "Narrow claim. Tokenisation terminates for every input: the advance function moves forward unconditionally, every lexer loop advances on every cycle and has an exit taken at the end-of-input sentinel (loop conditions are evaluated with the sentinel substituted, predicates included), and the lexer does not recurse. End of input is decided by position, not by a character value. The string reader's escape table is the language's.",
+		NotDecided:  "what regexp and numeric literals denote, the division-vs-regexp decision, that layout and comments never change the token sequence: character-level value semantics.",
 		Assumptions: commonAssumptions},
 	{ID: "C16", Title: "containers", Level: "other",
 		Rules:       []string{"R-SCRIPTINDEX", "R-HASHKEY", "R-MAPORDER", "R-NOMUT"},
